@@ -171,6 +171,21 @@ func extraPrograms() []*Prog {
 			add(term.Op("not", B, term.Op(opn, B, nst.Clone(), term.Op("boom", B))))
 		}
 	}
+	// parameterless registered operators that succeed, as deciding / neutral operands
+	pb := func() *term.Term { return term.Op("p", B, b()) }
+	for _, opn := range []string{"and", "or"} {
+		dec, neu := "z0", "t0"
+		if opn == "or" {
+			dec, neu = "t0", "z0"
+		}
+		add(term.Op(opn, B, term.Op(dec, B), b(), pb()))
+		add(term.Op(opn, B, b(), term.Op(dec, B), pb()))
+		add(term.Op(opn, B, term.Op(neu, B), pb(), b()))
+		add(term.Op(opn, B, term.If(b(), term.Op(dec, B), b()), pb()))
+		add(term.Op(opn, B, term.Op("not", B, term.Op(neu, B)), pb(), term.Op(dec, B)))
+		add(term.Op(opn, B, term.Op(opn, B, term.Op(dec, B), b()), pb()))
+		add(term.Op(opn, B, term.Op(dec, B), term.Op(neu, B)))
+	}
 	for _, ne := range []string{"!=", "ne"} {
 		add(term.Op(ne, B, n(), F.Clone()))
 		add(term.Op(ne, B, F.Clone(), n()))
